@@ -222,6 +222,9 @@ def run_property(mod, tier="quick", replay_path=None):
               "inputs": o.get("concrete") or {}, "backend": o.get("backend")}
         if c is not None:
             rp.update(requires=c.requires + c.size_constraints, ensures=c.ensures, raises=c.raises, params=list(c.params))
+            for kk in ("rtol", "atol"):
+                if c.replay and kk in c.replay:
+                    rp[kk] = c.replay[kk]
         custom = getattr(mod, "CUSTOM_REPLAY", {}).get(q) or (res.get("custom_replay"))
         if custom:
             rp["custom_replay"] = custom
